@@ -3,7 +3,7 @@ use super::common::*;
 use crate::engine::{fail, pass, Ctx, Opts, Verdict};
 use crate::gen::{self, SignCase};
 use crate::hashid::{HashId, ALL_HASHES};
-use crate::libapi::{self, Cb, KeyEntry, Out};
+use crate::libapi::{self, AuxBuf, Cb, KeyEntry, Out};
 use crate::refmodel::Level;
 use serde::{Deserialize, Serialize};
 
@@ -21,9 +21,24 @@ pub fn check_sign_verifies(c: &SignCase, entry_sel: u8) -> Verdict {
         }
     };
     let blob = with_counter(&sk, c.counter);
+    // aux data: none / a zeroed buffer / the buffer key generation filled for this key (the
+    // latter only when the root tree is cheap to rebuild)
+    let aux_mode = (entry_sel / 3) % 3;
+    let mut aux: Option<AuxBuf> = match aux_mode {
+        1 => Some(AuxBuf::new(vec![0u8; 64 + (entry_sel as usize) * 13])),
+        2 if gen::level_cost(n, c.levels[0]) <= 600_000 => {
+            let mut a = AuxBuf::new(vec![0u8; 40 + (entry_sel as usize) * 29]);
+            match libapi::keygen(c.hash, &c.levels, &seed, Some(&mut a)) {
+                Out::Ok((_, pk2)) if pk2 == pk => Some(AuxBuf::new(a.used().to_vec())),
+                o => return fail("keygen-with-aux", format!("keygen with an aux buffer: {} (or a different public key)", o.kind())),
+            }
+        }
+        _ => None,
+    };
+    let aux_class = match (&aux, aux_mode) { (None, _) => "noaux", (Some(_), 1) => "aux-zero", _ => "aux-valid" };
     // alternate between the byte-level function and the in-memory key object
-    let sig = if entry_sel % 3 == 0 {
-        let (o, calls) = libapi::sign(c.hash, &msg, &blob, Cb::Accept, None);
+    let sig = if entry_sel % 3 == 0 || aux.is_some() && entry_sel % 2 == 0 {
+        let (o, calls) = libapi::sign(c.hash, &msg, &blob, Cb::Accept, aux.as_mut());
         match o {
             Out::Ok(s) => {
                 if calls.len() != 1 {
@@ -40,7 +55,7 @@ pub fn check_sign_verifies(c: &SignCase, entry_sel: u8) -> Verdict {
         }
     } else {
         let e = if entry_sel % 3 == 1 { KeyEntry::TrySign } else { KeyEntry::TrySignWithAuxNone };
-        match libapi::sign_via_key(c.hash, &msg, &blob, e, None).0 {
+        match libapi::sign_via_key(c.hash, &msg, &blob, e, aux.as_mut()).0 {
             Out::Ok(s) => s,
             o => {
                 return fail(
@@ -69,7 +84,7 @@ pub fn check_sign_verifies(c: &SignCase, entry_sel: u8) -> Verdict {
     }
     let suite_like = c.counter == 0 && c.levels.iter().all(|l| *l == (1, 5)) && c.levels.len() == 3;
     pass(
-        format!("{}|{}|{}|msg-{}", c.hash.name(), gen::shape_class(&c.levels), c.counter_class, c.msg.class()),
+        format!("{}|{}|{}|msg-{}|{}", c.hash.name(), gen::shape_class(&c.levels), c.counter_class, c.msg.class(), aux_class),
         !suite_like,
     )
 }
@@ -107,7 +122,7 @@ pub fn small_shapes(thorough: bool) -> Vec<Vec<Level>> {
 }
 
 pub fn run(ctx: &Ctx) {
-    ctx.set_rule("random: (hash, 1..8 levels over W{1,2,4,8} x H{2,5,10} fitted to a cost budget, seed, counter from {0,1,last,last-1,subtree boundaries,random} written into the key blob, message from a length menu 0..8KiB) -> sign through hbs_lms::sign / SigningKey::try_sign / try_sign_with_aux(None) -> must verify through verify(), VerifyingKey::verify(Signature) and (VerifierSignature); sweep: every counter of the complete lifetime of small shapes. Non-trivial = not the suite's point (3x W1/H5 at counter 0); distinct by serialized case.");
+    ctx.set_rule("random: (hash, 1..8 levels over W{1,2,4,8} x H{2,5,10} fitted to a cost budget, seed, counter from {0,1,last,last-1,subtree boundaries,random} written into the key blob, message from a length menu 0..8KiB) -> sign through hbs_lms::sign / SigningKey::try_sign / try_sign_with_aux, without aux data, with a zeroed aux buffer or with the buffer key generation filled -> must verify through verify(), VerifyingKey::verify(Signature) and (VerifierSignature); sweep: every counter of the complete lifetime of small shapes. Non-trivial = not the suite's point (3x W1/H5 at counter 0); distinct by serialized case.");
     ctx.assume("LmsH2 (type code 1) is enabled through the verif-hooks feature; production builds reject it");
     ctx.assume("trees of height >= 15 are never built");
     let budget = ctx.tier.pick(2_500_000u64, 40_000_000u64);
